@@ -335,7 +335,7 @@ async fn interp(case: &Case, gates: Gates, v: &mut Verdict) {
     let mut held: Vec<HeldX> = vec![];
     let mut bad: BTreeSet<u64> = BTreeSet::new();
     // identities that turn bad when a gate is released
-    let mut pending_bad: Vec<(usize, u64)> = vec![];
+    let mut pending_bad: Vec<(usize, u64, Arc<Mutex<bool>>)> = vec![];
     let mut next_id: u64 = 100;
     let mut idle_bad = 0usize; // poisoned / broken connections that went back to the pool
 
@@ -344,9 +344,13 @@ async fn interp(case: &Case, gates: Gates, v: &mut Verdict) {
             let g: usize = $g % 4;
             *lock(&gates[g].0) = true;
             gates[g].1.notify_all();
-            pending_bad.retain(|(pg, id)| {
+            tokio::time::sleep(Duration::from_millis(2)).await;
+            pending_bad.retain(|(pg, id, started)| {
                 if *pg == g {
-                    bad.insert(*id);
+                    // a closure whose future was dropped before it started may legitimately never run
+                    if *lock(started) {
+                        bad.insert(*id);
+                    }
                     false
                 } else {
                     true
@@ -472,18 +476,17 @@ async fn interp(case: &Case, gates: Gates, v: &mut Verdict) {
                 let started = Arc::new(Mutex::new(false));
                 held[i].conn.gated_panic(gates.clone(), g, started.clone()).await;
                 // wait until the closure really holds the connection
-                for _ in 0..20000 {
+                for _ in 0..2000 {
                     if *lock(&started) {
                         break;
                     }
                     tokio::time::sleep(Duration::from_millis(1)).await;
                 }
                 if !*lock(&started) {
-                    v.inconclusive = Some("gated closure did not start".into());
-                    return;
+                    v.labels.push("cancelled-closure-not-started".into());
                 }
                 held[i].busy_gate = Some(g);
-                pending_bad.push((g, held[i].id));
+                pending_bad.push((g, held[i].id, started.clone()));
                 v.labels.push("cancelled-interact-with-pending-panic".into());
             }
             Step::GatedBreak { h, gate } => {
@@ -494,18 +497,17 @@ async fn interp(case: &Case, gates: Gates, v: &mut Verdict) {
                 }
                 let started = Arc::new(Mutex::new(false));
                 held[i].conn.gated_break(gates.clone(), g, started.clone(), sstate.clone()).await;
-                for _ in 0..20000 {
+                for _ in 0..2000 {
                     if *lock(&started) {
                         break;
                     }
                     tokio::time::sleep(Duration::from_millis(1)).await;
                 }
                 if !*lock(&started) {
-                    v.inconclusive = Some("gated closure did not start".into());
-                    return;
+                    v.labels.push("cancelled-closure-not-started".into());
                 }
                 held[i].busy_gate = Some(g);
-                pending_bad.push((g, held[i].id));
+                pending_bad.push((g, held[i].id, started.clone()));
                 v.labels.push("cancelled-interact-that-breaks-the-connection".into());
             }
             Step::Release { gate } => {
